@@ -401,6 +401,14 @@ class Converged:
                     pos[3:] += np.array([-2e-5, 4e-5, 3e-5])
                 out.append(dict(a=a.tolist(), frac=(pos @ np.linalg.inv(a)).tolist(), Z=[int(z) for z in rng.integers(2, 6, nat)]))
                 continue
+            elif self.family == "uncharged_atom_in_the_list":
+                # an atom without charge (ghost atom, Z = 0) in front of or between the charged ones: it contributes nothing and hides nothing
+                a = np.diag(rng.uniform(6, 12, 3)) + rng.uniform(-0.8, 0.8, (3, 3))
+                nat = 3 + k % 2
+                Zs = [int(z) for z in rng.integers(1, 5, nat)]
+                Zs[k % (nat - 1)] = 0
+                out.append(dict(a=a.tolist(), frac=rng.uniform(0, 1, (nat, 3)).tolist(), Z=Zs))
+                continue
             elif self.family == "madelung":
                 return [dict(name="NaCl", a=(np.array([[0, .5, .5], [.5, 0, .5], [.5, .5, 0]]) * 2).tolist(), frac=[[0, 0, 0], [.5, .5, .5]], Z=[1, -1], ref=-1.747564594633),
                         dict(name="CsCl", a=np.eye(3).tolist(), frac=[[0, 0, 0], [.5, .5, .5]], Z=[1, -1], ref=-1.762674773070 / (np.sqrt(3) / 2)),
@@ -418,7 +426,7 @@ class Converged:
         if ref is None:
             ref = ewald_reference(a, pos, c["Z"])
         err = abs(e - ref) / max(1.0, abs(ref))
-        if self.family == "nearly_equal_pairs":
+        if self.family in ("nearly_equal_pairs", "uncharged_atom_in_the_list"):
             # and the atoms listed in the reverse order (which of two nearly equal pairs comes first must not matter)
             e_rev = _native_E(a, pos[::-1], list(c["Z"])[::-1])
             err = max(err, abs(e_rev - e) / max(1.0, abs(ref)))
@@ -443,7 +451,7 @@ class Converged:
         return bool(err > 2e-6), dict(get_Eewald=e, reference=ref, rel_err=err)
 
 
-for _fam in ("orthorhombic", "triclinic", "skewed", "madelung", "nearly_equal_pairs"):
+for _fam in ("orthorhombic", "triclinic", "skewed", "madelung", "nearly_equal_pairs", "uncharged_atom_in_the_list"):
     register(Obligation(name=f"C10.get_Eewald.converged_sum.{_fam}", prop=PROP, engine="B", bounded=True, functions=["eminus.energies:get_Eewald"],
                         run=Converged(_fam), budget={"quick": 300, "thorough": 1200},
                         doc=f"BOUNDED: default-parameter get_Eewald vs an independent converged Ewald sum ({_fam} cells, random bases and charges)"))
@@ -474,6 +482,20 @@ class ParameterIndependence:
                 "one lattice vector inverted (left-handed set)": _native_E(a * np.array([[1], [1], [-1]]), pos, Z),
                 "2x1x1 supercell (half)": 0.5 * _native_E(a * np.array([[2], [1], [1]]), np.vstack([pos, pos + a[0]]), np.concatenate([Z, Z])),
             }
+            if k == 0:
+                # a 20 bohr box: large reciprocal cut-offs need many images per axis (gcut L / 2 pi = 32 and 48)
+                a20 = np.eye(3) * 20.0 + rng.uniform(-0.3, 0.3, (3, 3))
+                p20 = rng.uniform(0, 1, (3, 3)) @ a20
+                z20 = np.array([1, 1, 6])
+                ref20 = ewald_reference(a20, p20, z20)
+                for g in (6, 10):
+                    e = _native_E(a20, p20, z20, gcut=g)
+                    err = abs(e - ref20) / max(1.0, abs(ref20))
+                    worst[f"20 bohr box, gcut={g}"] = err
+                    if err > 2e-6:
+                        wit = dict(a=a20.tolist(), pos=p20.tolist(), Z=z20.tolist(), check=f"gcut={g}", kw=dict(gcut=g))
+                        return Result(REFUTED, backend="native", witness=wit, replayed=True, replay_info=dict(E=e, converged=ref20, rel_err=err),
+                                      detail=f"get_Eewald(gcut={g}) in a 20 bohr box deviates from the converged sum by {err:.2e} (relative)")
             for name, e in checks.items():
                 err = abs(e - e0) / max(1.0, abs(e0))
                 worst[name] = max(worst.get(name, 0), err)
@@ -485,7 +507,7 @@ class ParameterIndependence:
 
     def replay(self, wit):
         a, pos, Z = np.array(wit["a"]), np.array(wit["pos"]), np.array(wit["Z"])
-        e0 = _native_E(a, pos, Z)
+        e0 = _native_E(a, pos, Z, **wit.get("kw", {}))
         ref = ewald_reference(a, pos, Z)
         return bool(abs(e0 - ref) / max(1, abs(ref)) > 2e-6), dict(E=e0, converged=ref)
 
@@ -594,8 +616,13 @@ class ImageBox:
         return self.evaluate(wit)
 
 
+BOX_CELLS["cubic_L20"] = np.eye(3) * 20.0
+BOX_PARAMS["gcut10"] = dict(gcut=10)
+
 for _cell in BOX_CELLS:
     for _par in BOX_PARAMS:
+        if (_par == "gcut10") != (_cell == "cubic_L20"):
+            continue  # the large box is enumerated with the large reciprocal cut-off only (33 images per axis), the others with the two standard sets
         register(Obligation(name=f"C10.get_Eewald.image_box_contains_cutoff_sphere[{_cell}{'' if _par == 'default' else ',' + _par}]", prop=PROP, engine="X",
                             functions=["eminus.energies:get_Eewald"], run=ImageBox(_cell, _par), assumes=("cpython",),
                             doc=f"{_cell} cell ({_par} parameters): every lattice vector within tmax and every reciprocal vector within gcut is part of the Ewald sums (exhaustive enumeration)"))
